@@ -3,7 +3,7 @@ EXTENDS Collector, Json, IOUtils
 Rec == ndJsonDeserialize(IOEnv.TRACE)
 VARIABLE l
 Init == l = 1
-Why(tag, a, b) == PrintT(<<"REJECT", l, tag, "expected", a, "observed", b>>)    \* reported; the rest of the trace is still judged
+Why(tag, a, b) == PrintT("REJECT " \o ToJson([l |-> l, tag |-> tag, expected |-> a, observed |-> b]))    \* reported; the rest of the trace is still judged
 Next == /\ l <= Len(Rec)
         /\ LET ev == Rec[l] cfg == ev.cfg run == ev.run IN
            /\ IF ev.total_stats = Total(run) THEN TRUE ELSE Why("total_stats", Total(run), ev.total_stats)
